@@ -84,9 +84,10 @@ Definition default_depth : Z := 32.
 Definition spec_depth (os : list opt) : Z :=
   let n := last_depth os 0 in if Z.ltb 0 n then n else default_depth.
 
-(* Reading: non-negative StackSkip only *)
-Definition skip_nonneg (o : opt) : bool := match o with OSkip n => Z.leb 0 n | _ => true end.
-Definition in_domain (c : case) : bool := forallb skip_nonneg (opts_of c).
+(* Reading: "StackSkip values add up and remove that many innermost frames" is meaningful when the
+   SUM is non-negative (single values may be negative, e.g. StackSkip(-1) in a context compensated
+   by StackSkip(1) at the call site); a negative total would ask for frames of the library itself *)
+Definition in_domain (c : case) : bool := Z.leb 0 (sum_skips (opts_of c)).
 
 (* the frames the error must show: drop the summed skips from the creation site
    (for Recover: from the function that called panic), keep the depth *)
@@ -152,7 +153,7 @@ Definition corr_strict (c : case) : bool :=
   && Nat.eqb (List.length (o_sym2 c)) (List.length (pcs_of s))
   && frames_eqb (frs c (o_debug c)) (model_debug c).
 
-(* outside the Reading's domain (negative skips; used to look at the library's
+(* outside the Reading's domain (a negative total; used to look at the library's
    own chain): function names and the count only *)
 Definition corr_names (c : case) : bool :=
   let s := model_stack c in
